@@ -111,6 +111,19 @@ CHECKS["C05"] = dict(
          "is rejected as vacuous.",
     ref="4 C05", technique="TLA+ model checking (TLC) + spec-to-code replay + stateful trace validation")
 
+CHECKS["C11"] = dict(
+    text="LintGroupConfig is specified as a partial map to {On, Off, None} with the code's operations "
+         "(spec/ConfigOps.tla); TLC checks overlay-on-curated, merge precedence, unknown keys, clear and JSON round "
+         "trip for all configurations and operation sequences within bounds, and Decomposes on the LintGroup model. "
+         "Every (configuration, other) pair from TLC x 19 operations is executed on the real LintGroupConfig with "
+         "model keys mapped to real rule names, and TLC validates the stored map against the spec's operator "
+         "(spec/trace/Trace_Config.tla). Real documents are linted on a reused linter under E, under both halves of "
+         "a partition of E and under E again (multiset equation), and user settings are overlaid through harper-ls's "
+         "and harper-wasm's entry formats.",
+    note="Trusted: TLC; lint identity = digest of the serialised lint. 'rule' means rule name (one name may drive "
+         "two linters).",
+    ref="4 C11", technique="TLA+ model checking (TLC) + spec-to-code replay + trace validation")
+
 NOT_YET = {}
 
 
